@@ -617,6 +617,17 @@ def c18_worker(res: Result, i: int, n: int) -> None:
             b["max_timestamp"] = b["base_timestamp"]
         res.count("batches_beyond_1MiB")
         work.append((f"large #{k} shape {shape}", recref.encode_batch(b), b))
+    if i == 0:
+        # far beyond any broker's default limits (the format's own limit is the int32 batch length): identity only, no damage sweep
+        for size in ((16 << 20) + 5, (70 << 20) + 1) if res.tier == "quick" else ((16 << 20) + 5, (70 << 20) + 1, (300 << 20) + 3):
+            rng = common.rng_for("C18", "huge", size)
+            b, _ = gen_batch(rng, False, 2)
+            b["records"] = b["records"][:1]
+            b["records"][0].update(value=bytes(size), timestamp_delta=0, offset_delta=0)
+            b["last_offset_delta"] = 0
+            b["max_timestamp"] = b["base_timestamp"]
+            res.count("batches_beyond_16MiB")
+            _identity(res, recref.encode_batch(b), b, f"huge batch {size >> 20} MiB")
     for k in range(i, 24 if res.tier == "quick" else 400, n):
         rng = common.rng_for("C18", "tiny", k)
         b, cell = tiny_records_batch(rng, (49, 50, 51, 64, 100, 128, 300, 1000)[k % 8] if k < 16 else None)
